@@ -64,7 +64,7 @@ static void do_fp(vf_case *c) {
 	int id = (int)mpz_get_si(c->v[1]), th; core_clean(); if (core_init() != RLC_OK) exit(2); vf_reseed(); cur_cid = -1; cur_cid2 = -1;
 	VF_TRY(th, fp_param_set(id)); if (th) return; if (bn_is_zero(&core_get()->prime)) { vf_stat_add("x.unknown_field_ids_silently_ignored", 1); return; } vf_fp_sync();
 	OBL(fp_param_get() == id, "fp %d: fp_param_get() returns %d after selecting it", id, fp_param_get());
-	char who[32]; snprintf(who, sizeof who, "fp %d", id); vf_stat_add("x.sets_selected", 1); printf("@INFO selectable field parameter %d (%zu bits)\n", id, mpz_sizeinbase(vf_p, 2));
+	char who[32]; snprintf(who, sizeof who, "fp %d", id); vf_stat_add("x.sets_selected", 1); vf_stat_add("states", 1); printf("@INFO selectable field parameter %d (%zu bits)\n", id, mpz_sizeinbase(vf_p, 2));
 	check_field(who);
 }
 
@@ -74,7 +74,7 @@ static void do_ep(vf_case *c) {
 	core_clean(); if (core_init() != RLC_OK) exit(2); vf_reseed();
 	{ int th; VF_TRY(th, ep_param_set((int)id)); if (th) return; }
 	if (!select_curve(id)) { vf_fail(NULL, "ep %ld: generator not on the curve (or selection failed on re-selection)", id); return; }
-	char who[32]; snprintf(who, sizeof who, "ep %ld", id); vf_stat_add("x.sets_selected", 1);
+	char who[32]; snprintf(who, sizeof who, "ep %ld", id); vf_stat_add("x.sets_selected", 1); vf_stat_add("states", 1);
 	ctx_t *ctx = core_get(); mpz_t t, u, n; mpz_inits(t, u, n, NULL); rpt T, U; rpt_init(&T); rpt_init(&U);
 	gmp_printf("@INFO selectable curve %ld: %zu-bit p, %zu-bit r, h = %Zd, endom %d, pairf %d, level %d\n", id, mpz_sizeinbase(RC.p, 2), mpz_sizeinbase(RN, 2), RH, ep_curve_is_endom(), ep_curve_is_pairf(), ep_param_level());
 	check_field(who);
@@ -155,7 +155,7 @@ static bpt bpt_mul(bpt p, const mpz_t k) { bpt acc = bpt_inf(); size_t n = mpz_s
 static void do_eb(vf_case *c) {
 	int id = (int)mpz_get_si(c->v[1]), th; core_clean(); if (core_init() != RLC_OK) exit(2); vf_reseed(); cur_cid = -1; cur_cid2 = -1;
 	VF_TRY(th, eb_param_set(id)); if (th) return;
-	char who[32]; snprintf(who, sizeof who, "eb %d", id); vf_stat_add("x.sets_selected", 1);
+	char who[32]; snprintf(who, sizeof who, "eb %d", id); vf_stat_add("x.sets_selected", 1); vf_stat_add("states", 1);
 	/* polynomial: read, must have degree m, irreducible by Rabin's test: z^(2^m) = z mod f and gcd(z^(2^(m/q)) - z, f) = 1 for every prime q | m */
 	gf2 f = gf_zero(); memcpy(f.w, fb_poly_get(), sizeof(fb_st) < sizeof f.w ? sizeof(fb_st) : sizeof f.w); gf_setbit(&f, RLC_FB_BITS);
 	GF_M = RLC_FB_BITS; GF_POLY = f;
